@@ -52,14 +52,18 @@ fn c07_guard(ops: &[FsOp]) -> Option<&'static str> {
 }
 
 fn first_known(ops: &[FsOp]) -> Option<&'static str> {
+    first_known_k(ops, false).or_else(|| None)
+}
+
+fn first_known_k(ops: &[FsOp], strict_remove: bool) -> Option<&'static str> {
     // segments between crashes are judged separately by the C10 guards (a crash clears pending state)
     let mut seg: Vec<FsOp> = Vec::new();
     let mut m = Model::new();
-    let mut gs = GuardState::default();
+    let mut gs = GuardState { strict_remove, ..Default::default() };
     for op in ops {
         if matches!(op, FsOp::Crash) {
             m.crash();
-            gs = GuardState::default();
+            gs = GuardState { strict_remove, ..Default::default() };
             seg.clear();
             continue;
         }
@@ -116,14 +120,15 @@ impl Property for C07 {
         let with_mid_crash = rng.chance(1, 4);
         let mid = if with_mid_crash { rng.usize(1, n) } else { usize::MAX };
         let mut m = Model::new();
-        let mut gs = GuardState::default();
+        let strict_remove = knobs.block_size > 0;
+        let mut gs = GuardState { strict_remove, ..Default::default() };
         let mut ops = Vec::new();
         let mut g = Gen { rng, guarded, tag: 0, allow_tokio: true };
         for i in 0..n {
             if i == mid {
                 ops.push(FsOp::Crash);
                 m.crash();
-                gs = GuardState::default();
+                gs = GuardState { strict_remove, ..Default::default() };
             }
             let mut op = g.op(&m, &gs);
             // C07 wants durability-relevant histories: bias read-only ops towards syncs and writes
@@ -204,10 +209,16 @@ impl Property for C07 {
         let mut out: Vec<Scenario> = c10::shrink_ops(&sc.ops)
             .into_iter()
             .map(|ops| Scenario { guarded: sc.guarded, knobs: sc.knobs.clone(), ops, in_sim: sc.in_sim, ops2: sc.ops2.clone() })
-            .filter(|c| !sc.guarded || first_known(&c.ops).is_none())
+            .filter(|c| !sc.guarded || first_known_k(&c.ops, c.knobs.block_size > 0).is_none())
             .collect();
         if !sc.ops2.is_empty() {
             out.push(Scenario { ops2: vec![], ..sc.clone() });
+            for ops2 in c10::shrink_ops(&sc.ops2) {
+                let c = Scenario { ops2, ..sc.clone() };
+                if !sc.guarded || first_known_k(&c.ops2, c.knobs.block_size > 0).is_none() {
+                    out.push(c);
+                }
+            }
         }
         if sc.in_sim {
             out.push(Scenario { in_sim: false, ops2: vec![], ..sc.clone() });
@@ -225,17 +236,18 @@ impl Property for C07 {
         format!(
             "{}{}{} s{} b{} {}",
             if sc.in_sim { "SIM " } else { "" },
-            first_known(&sc.ops).map(|k| format!("KNOWN[{k}] ")).unwrap_or_default(),
+            first_known_k(&sc.ops, sc.knobs.block_size > 0).map(|k| format!("KNOWN[{k}] ")).unwrap_or_default(),
             if sc.guarded { "G" } else { "U" },
             sc.knobs.sync_pct,
             sc.knobs.block_size,
-            sc.ops.iter().map(|o| o.kind()).collect::<Vec<_>>().join(",")
+            sc.ops.iter().map(|o| o.kind()).collect::<Vec<_>>().join(",") + &if sc.ops2.is_empty() { String::new() } else { format!(" || {}{}", first_known_k(&sc.ops2, sc.knobs.block_size > 0).map(|k| format!("KNOWN[{k}] ")).unwrap_or_default(), sc.ops2.iter().map(|o| o.kind()).collect::<Vec<_>>().join(",")) }
         )
     }
 
     fn known_match(matcher: &str, sc: &Scenario, _v: &Violation) -> bool {
         let _ = ALL_KF;
-        first_known(&sc.ops) == Some(matcher) || (sc.in_sim && first_known(&sc.ops2) == Some(matcher))
+        let strict = sc.knobs.block_size > 0;
+        first_known_k(&sc.ops, strict) == Some(matcher) || (sc.in_sim && first_known_k(&sc.ops2, strict) == Some(matcher))
     }
 }
 
